@@ -134,7 +134,8 @@ def r1(R1, cfg, F):
     for c in F.calls_to(r'^std::cell::Cell::<T>::(set|replace|take|swap|update|get_mut|into_inner|as_ptr)$'):
         b = c.body
         ty = c.args[0]['place']['ty'] if c.args and c.args[0]['k'] in ('copy', 'move') else ''
-        if 'hot_reloading::records::Record' in ty:
+        inside_guard = b.path in (REC + "CellGuard::<'a, T>::replace", "<hot_reloading::records::CellGuard<'_, T> as std::ops::Drop>::drop")
+        if 'hot_reloading::records::Record' in ty and not inside_guard:
             R1.bad(cfg, b.path, 'RECORDING-written-outside-CellGuard', 'the recording cell is modified with `%s` outside CellGuard' % c.callee.best, c.loc())
         elif b.path.startswith(REC) or 'records::CellGuard' in b.path:
             okp = b.path in (REC + "CellGuard::<'a, T>::replace", "<hot_reloading::records::CellGuard<'_, T> as std::ops::Drop>::drop")
